@@ -1251,7 +1251,7 @@ def compose_case(part: Part, reqs: list, seed: int) -> None:
     except Exception as e:  # noqa: BLE001
         out = ["raised", _exc_name(e)]
         r = None
-    sig = "compose/" + "+".join(sorted(set(names)))
+    sig = "compose"  # the leaves are in the case
     if r is not None:
         if p.in_place and r.model is not model:
             part.fail(sig + "/identity", "in-place composition returned another object", case)
